@@ -1,31 +1,44 @@
 //! C11 — checkpointing is transparent, cleans up after success and survives crashes.
 //!
 //! One request kind (see `lean/IbModel/Driver/D11.lean`):
-//!   CKPT pol=<barrier|every:n|time:s|hybrid:<T|F>:s> max=<none|n> rec=<T|F> first=<none|full|crash:j>
+//!   CKPT dir=<ok|file> pol=<barrier|every:n|time:s|hybrid:<T|F>:s> max=<none|n> rec=<T|F>
+//!        first=<none|full|crash:j|crashb:j>
 //!        mut=<none|trunc:o|flip:i:b|set:hex> add=<names|-> pre=<dir|-> mode=<seq|par:n> canon=.. src <rows> ; steps
 //!   => `[<first outcome> own=<0|+> last=<fields|-> || ]<outcome> rec=<log> own=<0|+> last=<fields|-> other=<names|->`
 //!
 //! A job = a generated pipeline (`pipe.rs` generators; reorder-inert, panic-free; barriers, global combines,
 //! joins) × policy × retention × mode × auto_recover, run by the REAL `Runner { checkpoint_config }` in a scratch
 //! directory:
-//!   * `pre`   files placed before anything runs (own-named files with valid / torn / garbage / hostile content,
-//!             look-alike and foreign names);
-//!   * `first` an earlier run of the same pipeline that runs to its end (`full`) or is killed (`crash:j`: step `j`
-//!             is a `map ident` whose closure panics while armed — caught; whatever files the run wrote stay);
+//!   * `dir`   `file`: the configured checkpoint directory path is a REGULAR FILE (`create_dir_all` fails);
+//!   * `pre`   entries placed before anything runs (own-named files with valid / torn / garbage / hostile content,
+//!             look-alike and foreign names; own-named, look-alike and foreign SUB-DIRECTORIES);
+//!   * `first` an earlier run of the same pipeline that runs to its end (`full`) or is killed: `crash:j` — step `j`
+//!             is an identity step (`map ident`, or `filter tt` where the rows are grouped, e.g. directly after a
+//!             group_by_key) whose closure panics while armed; `crashb:j` — the closure that panics is the user
+//!             combiner (`add_input`) of the BARRIER step following the identity step `j`, i.e. the panic unwinds out
+//!             of a CombineValues / CombineGlobal node. Caught; whatever files the run wrote stay;
 //!   * `mut`/`add` damage to the newest file the earlier run left / extra foreign files;
-//!   * the run proper. When the directory holds anything but what an undamaged run wrote, this last run happens in
-//!     a CHILD process (`ibh child c11 final …`) with a watchdog and an address-space limit.
+//!   * the run proper.
+//! Every REAL run that faces directory content an undamaged run of the current code did not write itself — the
+//! earlier run over `pre` entries as well as the run proper — happens in a CHILD process
+//! (`ibh child c11 <first|final> …`) with a watchdog and an address-space limit, and so does every call of the real
+//! `load_checkpoint` on such content.
 //!
 //! Oracles (none goes through the model): the run's result == the result of the same pipeline WITHOUT
 //! checkpointing (and == the plain-vector reference interpreter); after an `Ok` result no file created by this run
-//! or by the earlier run of the same pipeline is left and no new file exists; files that are not checkpoints of
-//! this pipeline id are untouched; the run never panics / aborts / hangs because of what is in the directory.
+//! or by the earlier run of the same pipeline is left, no new entry exists, and no regular file with a well-formed
+//! checkpoint name of THIS run's pipeline id is left (the id is a hash of the chain length [+ partition count], so
+//! planted files "of an equal-length pipeline" are this id's files by design — Lean `same_length_same_id`);
+//! entries that are not checkpoint files of this pipeline id — foreign files and every sub-directory, own-named ones
+//! included (`remove_file` cannot remove them) — are untouched; the run never panics / aborts / hangs because of
+//! what is in the directory. With `dir=file` (a precondition of the property is violated) the run must either
+//! return the plain result or fail with the set-up error, and leave the path alone.
 //!
 //! Wall-clock stamps never appear in answers: the listing is reduced to "are there own files" + the decoded record
 //! of the newest one (without timestamp and checksum) + the sorted other names.
 
 use crate::ctx::{Ctx, Rng, Tier, guarded, hex};
-use crate::pipe::{self, Coll, Fn_, GenOpts, JoinKind, Mode, Outcome, Prog, RefOut, Shape, Step, V};
+use crate::pipe::{self, Coll, Comb, Fn_, GenOpts, JoinKind, MaxT, Mode, Outcome, Pred, Prog, RefOut, Shape, Step, V};
 use ironbeam::checkpoint::{
     CheckpointConfig, CheckpointManager, CheckpointMetadata, CheckpointPolicy, CheckpointState, compute_checksum,
 };
@@ -101,8 +114,19 @@ enum En {
 enum First {
     None,
     Full,
+    /// the identity step at this index panics while armed
     Crash(usize),
+    /// `marker`: an (unarmed) identity step; `barrier`: the following barrier step, whose user combiner panics
+    CrashBarrier { marker: usize, barrier: usize },
 }
+/// what the configured checkpoint directory path is
+#[derive(Clone, Copy, Debug, PartialEq)]
+enum DirKind {
+    Ok,
+    /// a regular file: `create_dir_all` fails
+    File,
+}
+const FILE_AS_DIR_CONTENT: &[u8] = b"this path is a regular file, not a directory\n";
 #[derive(Clone, Debug, PartialEq)]
 enum Mu {
     None,
@@ -147,6 +171,10 @@ enum PreFile {
     Own(u64, Content),
     /// `{}` in the template is replaced by the pipeline id
     Named(String, Vec<u8>),
+    /// a SUB-DIRECTORY `checkpoint_<pid>_<stamp>.bin/` (holding one file)
+    OwnDir(u64),
+    /// a sub-directory under a look-alike / foreign name
+    NamedDir(String),
 }
 
 #[derive(Clone, Debug)]
@@ -161,18 +189,17 @@ struct Job {
     mu: Mu,
     add: Vec<String>,
     pre: Vec<PreFile>,
+    dirkind: DirKind,
     tag: &'static str,
 }
 impl Job {
-    fn marker(&self) -> Option<usize> {
-        match self.first {
-            First::Crash(j) => Some(j),
-            _ => None,
-        }
-    }
     /// anything in the directory that an undamaged run of the current code did not write itself?
     fn needs_child(&self) -> bool {
         !self.pre.is_empty() || self.mu != Mu::None
+    }
+    /// does the EARLIER run already face such content?
+    fn first_in_child(&self) -> bool {
+        self.first != First::None && !self.pre.is_empty()
     }
 }
 
@@ -189,33 +216,86 @@ fn trip() {
         panic!("injected crash");
     }
 }
-/// `Step::Map(Fn_::Ident)` with a closure that panics while `ARMED`
-fn apply_marker(c: Coll) -> Coll {
-    Coll::T(match c {
-        Coll::T(x) => x.map(|v: &V| {
-            trip();
-            v.clone()
+/// the identity step `s` (`map ident` / `filter tt`) with a closure that panics while `ARMED`
+fn apply_marker(c: Coll, s: &Step) -> Coll {
+    match s {
+        Step::Map(Fn_::Ident) => Coll::T(match c {
+            Coll::T(x) => x.map(|v: &V| {
+                trip();
+                v.clone()
+            }),
+            Coll::KV(x) => x.map(|r: &(V, V)| {
+                trip();
+                row_kv(r)
+            }),
+            Coll::KG(x) => x.map(|r: &(V, Vec<V>)| {
+                trip();
+                row_kg(r)
+            }),
+            Coll::R(x) => x.map(|r: &Result<V, String>| {
+                trip();
+                pipe::result_v(r)
+            }),
         }),
-        Coll::KV(x) => x.map(|r: &(V, V)| {
-            trip();
-            row_kv(r)
-        }),
-        Coll::KG(x) => x.map(|r: &(V, Vec<V>)| {
-            trip();
-            row_kg(r)
-        }),
-        Coll::R(x) => x.map(|r: &Result<V, String>| {
-            trip();
-            pipe::result_v(r)
-        }),
-    })
+        Step::Filter(Pred::Tt) => match c {
+            Coll::T(x) => Coll::T(x.filter(|_v: &V| {
+                trip();
+                true
+            })),
+            Coll::KV(x) => Coll::KV(x.filter(|_r: &(V, V)| {
+                trip();
+                true
+            })),
+            Coll::KG(x) => Coll::KG(x.filter(|_r: &(V, Vec<V>)| {
+                trip();
+                true
+            })),
+            Coll::R(_) => panic!("harness: marker on R"),
+        },
+        other => panic!("harness: step {} is not a crash marker", other.enc()),
+    }
 }
 
-fn build_marked(p: &Pipeline, prog: &Prog, marker: Option<usize>) -> Coll {
+/// `pipe::MaxT` (total max, a USER combiner) whose `add_input` panics while `ARMED`: the panic unwinds out of the
+/// barrier node's own closure (`local` of CombineValues / CombineGlobal)
+#[derive(Clone)]
+struct TripMaxT;
+impl ironbeam::CombineFn<V, Option<V>, V> for TripMaxT {
+    fn create(&self) -> Option<V> {
+        MaxT.create()
+    }
+    fn add_input(&self, acc: &mut Option<V>, v: V) {
+        trip();
+        MaxT.add_input(acc, v);
+    }
+    fn merge(&self, acc: &mut Option<V>, other: Option<V>) {
+        MaxT.merge(acc, other);
+    }
+    fn finish(&self, acc: Option<V>) -> V {
+        MaxT.finish(acc)
+    }
+}
+impl ironbeam::collection::LiftableCombiner<V, Option<V>, V> for TripMaxT {}
+
+/// the barrier step `s` (a `maxt` combine) built with `TripMaxT`
+fn apply_trip_barrier(c: Coll, s: &Step) -> Coll {
+    match (s, c) {
+        (Step::CombineValues(Comb::MaxT), Coll::KV(x)) => Coll::KV(x.combine_values(TripMaxT)),
+        (Step::CombineValuesLifted(Comb::MaxT), Coll::KG(x)) => Coll::KV(x.combine_values_lifted(TripMaxT)),
+        (Step::CombineGlobally(Comb::MaxT, fo), Coll::T(x)) => Coll::T(x.combine_globally(TripMaxT, *fo)),
+        (other, _) => panic!("harness: step {} cannot carry the barrier crash", other.enc()),
+    }
+}
+
+fn build_marked(p: &Pipeline, prog: &Prog, first: &First) -> Coll {
     // `pipe::build` on the step-less program sets the harness' current-pipeline slot and yields the source
     let mut c = pipe::build(p, &Prog { shape: prog.shape, src: prog.src.clone(), steps: vec![] });
     for (j, s) in prog.steps.iter().enumerate() {
-        c = if Some(j) == marker { apply_marker(c) } else { pipe::apply_step(c, s) };
+        c = match first {
+            First::Crash(m) if *m == j => apply_marker(c, s),
+            First::CrashBarrier { barrier, .. } if *barrier == j => apply_trip_barrier(c, s),
+            _ => pipe::apply_step(c, s),
+        };
     }
     c
 }
@@ -262,7 +342,7 @@ fn run_once(job: &Job, dir: Option<&Path>, armed: bool) -> Outcome {
     ARMED.store(armed, Ordering::SeqCst);
     let r = pipe::with_watchdog(10, move || {
         let p = Pipeline::default();
-        let c = build_marked(&p, &job.prog, job.marker());
+        let c = build_marked(&p, &job.prog, &job.first);
         let runner = Runner {
             mode: exec_mode(job.mode),
             checkpoint_config: if job.en == En::NoCfg { None } else { dir.as_ref().map(|d| ckpt_config(&job, d)) },
@@ -279,12 +359,21 @@ fn run_once(job: &Job, dir: Option<&Path>, armed: bool) -> Outcome {
     }
 }
 
+/// canonical answer of a run; the two set-up errors of the checkpointing engines get their own classes
+fn answer(o: &Outcome, canon: &str) -> String {
+    match o {
+        Outcome::Err(e) if e.contains("Failed to create checkpoint directory") => "ERR ckpt-create-dir".into(),
+        Outcome::Err(e) if e.contains("Failed to read checkpoint directory") => "ERR ckpt-read-dir".into(),
+        _ => pipe::outcome_answer(o, canon),
+    }
+}
+
 /// chain length after planning (the real planner), and from it this run's pipeline id as the code derives it
 fn pipeline_id(job: &Job) -> Option<(usize, String)> {
     let job2 = job.clone();
     let len = guarded(move || {
         let p = Pipeline::default();
-        let c = build_marked(&p, &job2.prog, job2.marker());
+        let c = build_marked(&p, &job2.prog, &job2.first);
         ironbeam::planner::build_plan(&p, terminal_id(&c)).map(|pl| pl.chain.len())
     })
     .ok()?
@@ -308,12 +397,34 @@ fn tmproot() -> tempfile::TempDir {
     tempfile::tempdir().expect("tempdir")
 }
 
-fn listing(dir: &Path) -> BTreeMap<String, Vec<u8>> {
+/// an entry of the checkpoint directory
+#[derive(Clone, Debug, PartialEq)]
+enum Ent {
+    File(Vec<u8>),
+    /// a sub-directory, with the sorted names inside it
+    Dir(Vec<String>),
+}
+impl Ent {
+    fn is_file(&self) -> bool {
+        matches!(self, Ent::File(_))
+    }
+}
+
+fn listing(dir: &Path) -> BTreeMap<String, Ent> {
     let mut m = BTreeMap::new();
     if let Ok(rd) = std::fs::read_dir(dir) {
         for e in rd.flatten() {
             if let Some(n) = e.file_name().to_str() {
-                m.insert(n.to_string(), std::fs::read(e.path()).unwrap_or_default());
+                let ent = if e.path().is_dir() {
+                    let mut inner: Vec<String> = std::fs::read_dir(e.path())
+                        .map(|r| r.flatten().filter_map(|x| x.file_name().to_str().map(str::to_string)).collect())
+                        .unwrap_or_default();
+                    inner.sort();
+                    Ent::Dir(inner)
+                } else {
+                    Ent::File(std::fs::read(e.path()).unwrap_or_default())
+                };
+                m.insert(n.to_string(), ent);
             }
         }
     }
@@ -410,6 +521,9 @@ fn rec_probe(job: &Job, pid: &str, dir: &Path) -> String {
     if !job.rec || job.en != En::On {
         return "off".into();
     }
+    if job.dirkind == DirKind::File {
+        return "-".into();
+    }
     let r = guarded(|| {
         let m = probe_manager(dir)?;
         let latest = m.find_latest_checkpoint(pid).ok()?;
@@ -438,8 +552,21 @@ fn run_final(job: &Job, pid: &str, dir: &Path) -> String {
         _ => rec_probe(job, pid, dir),
     };
     let out = run_once(job, Some(dir), false);
-    let ans = pipe::outcome_answer(&out, job.prog.canon());
+    let ans = answer(&out, job.prog.canon());
+    let rec = if ans.starts_with("ERR ckpt-") { "-".to_string() } else { rec };
     format!("{ans} rec={rec} {} other={}", own_str(pid, dir), other_str(pid, dir))
+}
+
+/// `<outcome> own=.. last=..` of the EARLIER run of `job` in `dir`. A panic of an armed run that is not the injected
+/// one is reported as `PANIC-NOT-INJECTED`.
+fn run_first(job: &Job, pid: &str, dir: &Path) -> String {
+    let armed = matches!(job.first, First::Crash(_) | First::CrashBarrier { .. });
+    let out = run_once(job, Some(dir), armed);
+    let a = match &out {
+        Outcome::Panic(msg) if armed && !msg.contains("injected crash") => "PANIC-NOT-INJECTED".to_string(),
+        _ => answer(&out, job.prog.canon()),
+    };
+    format!("{a} {}", own_str(pid, dir))
 }
 
 // ───────────────────────────── generators (pure: depend on the PRNG only) ─────────────────────────────
@@ -557,6 +684,19 @@ fn gen_pre(rng: &mut Rng) -> Vec<PreFile> {
         let body = if rng.chance(1, 2) { vec![] } else { gen_garbage(rng) };
         pre.push(PreFile::Named(t.to_string(), body));
     }
+    // sub-directories: own-named (a stamp not used by a file above), look-alike, foreign
+    if rng.chance(1, 5) {
+        let st = *rng.pick(STAMPS);
+        if !stamps.contains(&st) {
+            pre.push(PreFile::OwnDir(st));
+        }
+    }
+    if rng.chance(1, 8) {
+        let t = *rng.pick(&["checkpoint_{}_9x.bin", "subdir", "checkpoint_{}_77.bin.d", "checkpoint_{}x_77.bin"]);
+        if !used.contains(&t) {
+            pre.push(PreFile::NamedDir(t.to_string()));
+        }
+    }
     pre
 }
 
@@ -589,8 +729,9 @@ fn shapes_along(prog: &Prog) -> Vec<Shape> {
     v
 }
 
-/// insert the crash marker (`map ident`, followed by `topair` when the rows are key-value pairs) before step
-/// `pos`; returns the program and the marker's step index. `None` if the shape there is grouped.
+/// insert the crash marker before step `pos`: `map ident` (followed by `topair` when the rows are key-value pairs),
+/// or `filter tt` when the rows are grouped (e.g. directly after a group_by_key); returns the program and the
+/// marker's step index. `None` for `Result` rows.
 fn insert_marker(prog: &Prog, pos: usize) -> Option<(Prog, usize)> {
     let shapes = shapes_along(prog);
     let mut steps = prog.steps.clone();
@@ -600,9 +741,34 @@ fn insert_marker(prog: &Prog, pos: usize) -> Option<(Prog, usize)> {
             steps.insert(pos, Step::Topair);
             steps.insert(pos, Step::Map(Fn_::Ident));
         }
-        Shape::KG | Shape::R => return None,
+        Shape::KG => steps.insert(pos, Step::Filter(Pred::Tt)),
+        Shape::R => return None,
     }
     Some((Prog { shape: prog.shape, src: prog.src.clone(), steps }, pos))
+}
+
+/// insert, before step `pos`, an identity marker FOLLOWED BY A BARRIER whose user combiner can be armed:
+/// T: `map ident ; combine_globally maxt <fo>`, KV: `map ident ; topair ; combine_values maxt`. Returns the program,
+/// the marker's and the barrier's step index. (Grouped rows: only where the program already continues with a lifted
+/// `maxt` combine — see `fixed_barrier_crash_progs`.)
+fn insert_barrier_crash(prog: &Prog, pos: usize, fo: Option<usize>) -> Option<(Prog, usize, usize)> {
+    let shapes = shapes_along(prog);
+    let mut steps = prog.steps.clone();
+    let barrier = match shapes[pos] {
+        Shape::T => {
+            steps.insert(pos, Step::CombineGlobally(Comb::MaxT, fo));
+            steps.insert(pos, Step::Map(Fn_::Ident));
+            pos + 1
+        }
+        Shape::KV => {
+            steps.insert(pos, Step::CombineValues(Comb::MaxT));
+            steps.insert(pos, Step::Topair);
+            steps.insert(pos, Step::Map(Fn_::Ident));
+            pos + 2
+        }
+        Shape::KG | Shape::R => return None,
+    };
+    Some((Prog { shape: prog.shape, src: prog.src.clone(), steps }, pos, barrier))
 }
 
 /// rows that reach step `j` (plain-vector reference)
@@ -640,6 +806,36 @@ fn with_crash(rng: &mut Rng, prog: &Prog) -> Option<(Prog, usize)> {
     None
 }
 
+/// a barrier-crash job from `prog`
+fn with_barrier_crash(rng: &mut Rng, prog: &Prog) -> Option<(Prog, usize, usize)> {
+    let mut cands: Vec<usize> = (0..=prog.steps.len()).collect();
+    while !cands.is_empty() {
+        let pos = cands.remove(rng.below(cands.len()));
+        let fo = *rng.pick(&[None, Some(2), Some(3)]);
+        if let Some((p2, m, b)) = insert_barrier_crash(prog, pos, fo) {
+            if usable(&p2) && rows_at(&p2, m).is_some_and(|n| n > 0) {
+                return Some((p2, m, b));
+            }
+        }
+    }
+    None
+}
+
+/// fixed programs with a `maxt` barrier right after an identity marker: (program, marker index, barrier index)
+fn fixed_barrier_crash_progs() -> Vec<(Prog, usize, usize)> {
+    let right = Prog { shape: Shape::KV, src: kv_rows(&[(1, 100), (3, 300), (1, 101)]), steps: vec![Step::MapValues(Fn_::Add(1))] };
+    vec![
+        // per-key combine on pairs
+        (Prog { shape: Shape::KV, src: kv_rows(&[(1, 10), (2, 20), (1, 30), (3, 5)]), steps: vec![Step::MapValues(Fn_::Add(1)), Step::Map(Fn_::Ident), Step::Topair, Step::CombineValues(Comb::MaxT), Step::MapValues(Fn_::Mul(2))] }, 1, 3),
+        // global combine
+        (Prog { shape: Shape::T, src: (1..=7).map(V::I).collect(), steps: vec![Step::Map(Fn_::Mul(2)), Step::Map(Fn_::Ident), Step::CombineGlobally(Comb::MaxT, Some(2)), Step::Map(Fn_::Add(5))] }, 1, 2),
+        // group_by_key, marker on the grouped rows, lifted combine (a barrier directly after a barrier)
+        (Prog { shape: Shape::KV, src: kv_rows(&[(1, 10), (2, 20), (1, 30), (2, 2), (1, 1)]), steps: vec![Step::Gbk, Step::Filter(Pred::Tt), Step::CombineValuesLifted(Comb::MaxT), Step::MapValues(Fn_::Add(1))] }, 1, 2),
+        // the armed barrier ends up inside a join's left sub-plan (the CoGroup node is where the run dies)
+        (Prog { shape: Shape::KV, src: kv_rows(&[(1, 10), (2, 20), (1, 30)]), steps: vec![Step::MapValues(Fn_::Add(2)), Step::Map(Fn_::Ident), Step::Topair, Step::CombineValues(Comb::MaxT), Step::Join(JoinKind::Left, Box::new(right)), Step::Unkey] }, 1, 3),
+    ]
+}
+
 fn kv_rows(pairs: &[(i64, i64)]) -> Vec<V> {
     pairs.iter().map(|(k, v)| V::pair(V::I(*k), V::I(*v))).collect()
 }
@@ -663,7 +859,7 @@ fn fixed_progs() -> Vec<Prog> {
 }
 
 fn base_job(prog: Prog, mode: Mode, pol: Pol, max: Option<usize>, tag: &'static str) -> Job {
-    Job { prog, mode, pol, en: En::On, max, rec: true, first: First::None, mu: Mu::None, add: vec![], pre: vec![], tag }
+    Job { prog, mode, pol, en: En::On, max, rec: true, first: First::None, mu: Mu::None, add: vec![], pre: vec![], dirkind: DirKind::Ok, tag }
 }
 
 /// The whole job list of a run — a pure function of (seed, tier), so that the child process rebuilds it.
@@ -713,6 +909,62 @@ fn plan_jobs(rng: &mut Rng, tier: Tier, blocks: &mut Vec<String>) -> Vec<Job> {
         }
     }
 
+    // (1c) an own-named SUB-DIRECTORY `checkpoint_<pid>_<stamp>.bin/`: counted by the three scans (they look at names
+    //      only), never removable (`remove_file(..).ok()`), "the latest" when its stamp is the largest (then
+    //      `load_checkpoint` fails in `read_to_end`: only logged), still there after a successful run
+    for (prog, mode) in [(fixed[1].clone(), Mode::Seq), (fixed[1].clone(), Mode::Par(2)), (fixed[3].clone(), Mode::Seq)] {
+        for stamp in [5u64, u64::MAX] {
+            for (pol, max) in [(Pol::Barrier, None), (Pol::Every(1), Some(1)), (Pol::Time(0), Some(0))] {
+                for with_file in [false, true] {
+                    let mut j = base_job(prog.clone(), mode, pol, max, "corpus:own-named-subdirectory");
+                    j.pre = vec![PreFile::OwnDir(stamp)];
+                    if with_file {
+                        j.pre.push(PreFile::Own(1000, Content::Valid { idx: 1, total: 4, mu: Mu::None }));
+                    }
+                    jobs.push(j);
+                }
+            }
+        }
+    }
+    {
+        // … under an earlier full / crashed run (retention of the earlier run counts the directory as a checkpoint)
+        let (p2, m) = insert_marker(&fixed[1], 3).expect("marker");
+        for stamp in [5u64, u64::MAX] {
+            for (first, prog) in [(First::Full, fixed[1].clone()), (First::Crash(m), p2.clone())] {
+                for max in [None, Some(1)] {
+                    let mut j = base_job(prog.clone(), Mode::Seq, Pol::Every(1), max, "corpus:own-named-subdirectory");
+                    j.first = first.clone();
+                    j.pre = vec![PreFile::OwnDir(stamp), PreFile::NamedDir("checkpoint_{}_9x.bin".into()), PreFile::NamedDir("subdir".into())];
+                    jobs.push(j);
+                }
+            }
+        }
+    }
+    // (1d) the configured directory path is a REGULAR FILE: `CheckpointManager::new(config)?` is an exit that exists
+    //      only in the checkpointing engines — outside the property's precondition (usable directory); the run must
+    //      fail with exactly that error before any node runs (or return the plain result), and leave the path alone
+    for (prog, mode) in [(fixed[1].clone(), Mode::Seq), (fixed[1].clone(), Mode::Par(2)), (fixed[3].clone(), Mode::Seq), (fixed[5].clone(), Mode::Par(2))] {
+        for rec in [true, false] {
+            for en in [En::On, En::Off, En::NoCfg] {
+                for first in [First::None, First::Full] {
+                    let mut j = base_job(prog.clone(), mode, Pol::Every(1), Some(1), "corpus:directory-is-a-regular-file");
+                    j.dirkind = DirKind::File;
+                    j.rec = rec;
+                    j.en = en;
+                    j.first = first;
+                    jobs.push(j);
+                }
+            }
+        }
+    }
+    {
+        let (p2, m) = insert_marker(&fixed[1], 1).expect("marker");
+        let mut j = base_job(p2, Mode::Seq, Pol::Barrier, None, "corpus:directory-is-a-regular-file");
+        j.dirkind = DirKind::File;
+        j.first = First::Crash(m);
+        jobs.push(j);
+    }
+
     // (1b) a configuration that is absent or not enabled: plain engines, the directory is not even looked at
     for (en, mode) in [(En::Off, Mode::Seq), (En::Off, Mode::Par(2)), (En::NoCfg, Mode::Seq), (En::NoCfg, Mode::Par(3))] {
         let mut j = base_job(fixed[1].clone(), mode, Pol::Every(1), Some(1), "corpus:not-enabled");
@@ -758,14 +1010,47 @@ fn plan_jobs(rng: &mut Rng, tier: Tier, blocks: &mut Vec<String>) -> Vec<Job> {
                 }
             }
         }
-        blocks.push(format!("crash at every step position of 2 fixed programs x {} policies x retention {{None,0,1}}, sequential, then an undamaged recovery run = {} jobs", ALL_POLS.len(), jobs.len() - n0));
+        blocks.push(format!("crash at every step position (incl. directly after group_by_key, on the grouped rows) of 2 fixed programs x {} policies x retention {{None,0,1}}, sequential, then an undamaged recovery run = {} jobs", ALL_POLS.len(), jobs.len() - n0));
+    }
+    // (2b') exhaustive: the crash INSIDE a barrier node's closure (user combiner of combine_values / combine_globally
+    //       / lifted combine after group_by_key / a combine inside a join's sub-plan) × every policy × retention ×
+    //       {seq, par 2}; and the crash at every position of a third program in PARALLEL mode
+    {
+        let n0 = jobs.len();
+        for (prog, m, b) in fixed_barrier_crash_progs() {
+            for pol in ALL_POLS {
+                for max in [None, Some(1)] {
+                    for mode in [Mode::Seq, Mode::Par(2)] {
+                        let mut job = base_job(prog.clone(), mode, *pol, max, "exh:crash-inside-barrier");
+                        job.first = First::CrashBarrier { marker: m, barrier: b };
+                        jobs.push(job);
+                    }
+                }
+            }
+        }
+        let prog = &fixed[6];
+        for pos in 0..=prog.steps.len() {
+            if let Some((p2, j)) = insert_marker(prog, pos) {
+                if !usable(&p2) || rows_at(&p2, j) == Some(0) {
+                    continue;
+                }
+                for pol in [Pol::Barrier, Pol::Every(1), Pol::Time(0), Pol::Hybrid(true, LONG)] {
+                    for mode in [Mode::Seq, Mode::Par(3)] {
+                        let mut job = base_job(p2.clone(), mode, pol, Some(1), "exh:crash-every-position");
+                        job.first = First::Crash(j);
+                        jobs.push(job);
+                    }
+                }
+            }
+        }
+        blocks.push(format!("crash inside the closure of a barrier node (4 programs: combine_values, combine_globally, lifted combine directly after group_by_key, combine inside a join sub-plan) x {} policies x retention {{None,1}} x {{seq,par:2}}; crash at every position of a gbk+lifted-combine program x 4 policies x {{seq,par:3}} = {} jobs", ALL_POLS.len(), jobs.len() - n0));
     }
     // (2c) exhaustive: newest file of a crashed run truncated at EVERY offset 0..=limit, and every bit of the
     //      first bytes flipped
     {
         let n0 = jobs.len();
         let (p2, j) = insert_marker(&fixed[4], 3).expect("marker");
-        let limit = budget(64, 135);
+        let limit = 135; // the file is ~116 bytes: every offset up to and beyond its end, in every tier
         for o in 0..=limit {
             let mut job = base_job(p2.clone(), Mode::Seq, Pol::Every(1), None, "exh:truncate-every-offset");
             job.first = First::Crash(j);
@@ -811,6 +1096,20 @@ fn plan_jobs(rng: &mut Rng, tier: Tier, blocks: &mut Vec<String>) -> Vec<Job> {
                 job.pre = if rng.chance(1, 3) { gen_pre(rng) } else { vec![] };
                 job.tag = "rnd:after-full-run";
             }
+            5 if rng.chance(1, 2) => {
+                if let Some((p2, m, b)) = with_barrier_crash(rng, &job.prog.clone()) {
+                    job.prog = p2;
+                    job.first = First::CrashBarrier { marker: m, barrier: b };
+                    job.mu = gen_mu(rng);
+                    job.add = gen_add(rng);
+                    if rng.chance(1, 4) {
+                        job.pre = gen_pre(rng);
+                    }
+                    job.tag = "rnd:crash-inside-barrier";
+                } else {
+                    job.tag = "rnd:fresh";
+                }
+            }
             _ => {
                 if let Some((p2, j)) = with_crash(rng, &job.prog.clone()) {
                     job.prog = p2;
@@ -826,6 +1125,10 @@ fn plan_jobs(rng: &mut Rng, tier: Tier, blocks: &mut Vec<String>) -> Vec<Job> {
                 }
             }
         }
+        if job.pre.is_empty() && job.mu == Mu::None && job.add.is_empty() && rng.chance(1, 40) {
+            job.dirkind = DirKind::File;
+            job.tag = "rnd:directory-is-a-regular-file";
+        }
         jobs.push(job);
     }
     jobs
@@ -833,18 +1136,28 @@ fn plan_jobs(rng: &mut Rng, tier: Tier, blocks: &mut Vec<String>) -> Vec<Job> {
 
 // ───────────────────────────── execution ─────────────────────────────
 
-struct Prepared {
+/// phase A of a job: the scratch path, the `pre` entries
+struct PrepA {
     pid: String,
     len: usize,
     /// `pre=` token of the request
     pre_tok: String,
+    /// names present before the earlier run
+    before_first: BTreeSet<String>,
+}
+
+struct Prepared {
+    pid: String,
+    len: usize,
+    pre_tok: String,
     /// first-phase part of the answer (with trailing ` || `), empty if there is no first run
     first_ans: String,
-    first_out: Option<Outcome>,
+    /// outcome part of the earlier run's answer
+    first_res: Option<String>,
     /// names created by the first run (still present after it)
     first_created: BTreeSet<String>,
     /// directory content right before the final run
-    before: BTreeMap<String, Vec<u8>>,
+    before: BTreeMap<String, Ent>,
 }
 
 fn place_pre(job: &Job, pid: &str, dir: &Path) -> String {
@@ -884,28 +1197,50 @@ fn place_pre(job: &Job, pid: &str, dir: &Path) -> String {
                 std::fs::write(dir.join(&name), bytes).expect("write pre file");
                 toks.push(format!("{}:{}", hex(name.as_bytes()), hex(bytes)));
             }
+            PreFile::OwnDir(stamp) => {
+                let name = format!("checkpoint_{pid}_{stamp}.bin");
+                std::fs::create_dir_all(dir.join(&name)).expect("create pre dir");
+                std::fs::write(dir.join(&name).join("inner.txt"), b"inside").expect("write inner file");
+                toks.push(format!("own.{stamp}:DIR"));
+            }
+            PreFile::NamedDir(t) => {
+                let name = t.replace("{}", pid);
+                std::fs::create_dir_all(dir.join(&name)).expect("create pre dir");
+                std::fs::write(dir.join(&name).join("inner.txt"), b"inside").expect("write inner file");
+                toks.push(format!("{}:DIR", hex(name.as_bytes())));
+            }
         }
     }
     if toks.is_empty() { "-".into() } else { toks.join(",") }
 }
 
-/// everything before the final run: pre files, the earlier run, the damage
-fn prepare(job: &Job, dir: &Path) -> Option<Prepared> {
+/// phase A: the scratch path (a directory, or a regular file for `dir=file`) and the `pre` entries
+fn prepare_a(job: &Job, dir: &Path) -> Option<PrepA> {
     let (len, pid) = pipeline_id(job)?;
-    std::fs::create_dir_all(dir).ok()?;
+    match job.dirkind {
+        DirKind::Ok => std::fs::create_dir_all(dir).ok()?,
+        DirKind::File => {
+            assert!(job.pre.is_empty() && job.add.is_empty() && job.mu == Mu::None, "dir=file jobs have no entries");
+            std::fs::write(dir, FILE_AS_DIR_CONTENT).ok()?
+        }
+    }
     let pre_tok = place_pre(job, &pid, dir);
-    let before_first = listing(dir);
+    Some(PrepA { pid, len, pre_tok, before_first: listing(dir).keys().cloned().collect() })
+}
+
+/// phase B (after the earlier run, if any): the damage to the newest own FILE, the foreign files
+fn prepare_b(job: &Job, a: PrepA, dir: &Path, first: Option<String>) -> Prepared {
     let mut first_ans = String::new();
-    let mut first_out = None;
+    let mut first_res = None;
     let mut first_created = BTreeSet::new();
-    if job.first != First::None {
-        let out = run_once(job, Some(dir), matches!(job.first, First::Crash(_)));
-        first_ans = format!("{} {} || ", pipe::outcome_answer(&out, job.prog.canon()), own_str(&pid, dir));
-        first_created = listing(dir).keys().filter(|n| !before_first.contains_key(*n)).cloned().collect();
-        first_out = Some(out);
-        // damage the newest own file
+    if let Some(f) = first {
+        first_res = Some(f.split(" own=").next().unwrap_or("").to_string());
+        first_ans = format!("{f} || ");
+        let now = listing(dir);
+        first_created = now.keys().filter(|n| !a.before_first.contains(*n)).cloned().collect();
+        // damage the newest own regular file
         if job.mu != Mu::None {
-            if let Some(n) = newest_own(&pid, listing(dir).keys().cloned()) {
+            if let Some(n) = newest_own(&a.pid, now.iter().filter(|(_, e)| e.is_file()).map(|(n, _)| n.clone())) {
                 let path = dir.join(&n);
                 let c = std::fs::read(&path).unwrap_or_default();
                 std::fs::write(&path, job.mu.apply(&c)).expect("mutate");
@@ -917,7 +1252,7 @@ fn prepare(job: &Job, dir: &Path) -> Option<Prepared> {
             std::fs::write(dir.join(a), b"").expect("add foreign");
         }
     }
-    Some(Prepared { pid, len, pre_tok, first_ans, first_out, first_created, before: listing(dir) })
+    Prepared { pid: a.pid, len: a.len, pre_tok: a.pre_tok, first_ans, first_res, first_created, before: listing(dir) }
 }
 
 fn request(job: &Job, prep: &Prepared) -> String {
@@ -925,11 +1260,16 @@ fn request(job: &Job, prep: &Prepared) -> String {
         First::None => "none".to_string(),
         First::Full => "full".to_string(),
         First::Crash(j) => format!("crash:{j}"),
+        First::CrashBarrier { marker, .. } => format!("crashb:{marker}"),
     };
     let add = if job.add.is_empty() { "-".to_string() } else { job.add.iter().map(|a| hex(a.as_bytes())).collect::<Vec<_>>().join(",") };
     let body = job.prog.request(&job.mode.enc());
     format!(
-        "CKPT pol={} max={} rec={} first={first} mut={} add={add} pre={} {}",
+        "CKPT dir={} pol={} max={} rec={} first={first} mut={} add={add} pre={} {}",
+        match job.dirkind {
+            DirKind::Ok => "ok",
+            DirKind::File => "file",
+        },
         match job.en {
             En::On => job.pol.enc(),
             En::Off => format!("off/{}", job.pol.enc()),
@@ -952,6 +1292,17 @@ fn result_part(ans: &str) -> &str {
     ans.split(" rec=").next().unwrap_or(ans)
 }
 
+/// signature of "the checkpointed run did not return what the checkpoint-free run returns"
+fn differs_sig(res: &str, hostile_dir: bool) -> &'static str {
+    match first_token(res) {
+        "PANIC" | "PANIC-NOT-INJECTED" if hostile_dir => "run-panics-on-leftover-files",
+        "ABORT" => "run-aborts-on-leftover-files(huge allocation)",
+        "HANG" => "run-hangs-with-checkpointing",
+        _ if hostile_dir => "result-after-crash-differs-from-checkpoint-free-result",
+        _ => "checkpointed-result-differs-from-checkpoint-free-result",
+    }
+}
+
 fn evaluate(cx: &mut Ctx, job: &Job, prep: &Prepared, dir: &Path, final_ans: &str) {
     let canon = job.prog.canon();
     let req = request(job, prep);
@@ -965,6 +1316,7 @@ fn evaluate(cx: &mut Ctx, job: &Job, prep: &Prepared, dir: &Path, final_ans: &st
     cx.count(&format!("retention:{}", job.max.map_or("none".to_string(), |m| m.to_string())));
     cx.count(&format!("auto_recover:{}", job.rec));
     cx.count(&format!("config:{:?}", job.en));
+    cx.count(&format!("directory:{:?}", job.dirkind));
     cx.count(&format!("chain-len:{}", prep.len));
     if job.prog.has_join() {
         cx.count("prog:has-join");
@@ -974,6 +1326,27 @@ fn evaluate(cx: &mut Ctx, job: &Job, prep: &Prepared, dir: &Path, final_ans: &st
     }
     if job.needs_child() {
         cx.count("final-run:in-child");
+    }
+    if job.first_in_child() {
+        cx.count("earlier-run:in-child");
+    }
+    match &job.first {
+        First::None => {}
+        First::Full => cx.count("earlier-run:full"),
+        First::Crash(j) => {
+            cx.count("earlier-run:crash-in-stateless-closure");
+            if *j > 0 && matches!(job.prog.steps[*j - 1], Step::Gbk) {
+                cx.count("earlier-run:crash-directly-after-gbk");
+            }
+        }
+        First::CrashBarrier { barrier, .. } => cx.count(&format!("earlier-run:crash-inside-barrier:{}", job.prog.steps[*barrier].enc().split(' ').next().unwrap_or(""))),
+    }
+    for f in &job.pre {
+        match f {
+            PreFile::OwnDir(_) => cx.count("pre:own-named-subdirectory"),
+            PreFile::NamedDir(_) => cx.count("pre:other-subdirectory"),
+            _ => {}
+        }
     }
     match &job.mu {
         Mu::None => {}
@@ -995,41 +1368,66 @@ fn evaluate(cx: &mut Ctx, job: &Job, prep: &Prepared, dir: &Path, final_ans: &st
         cx.oracle_fail(idx, "plain-run-differs-from-reference", format!("plain={plain} reference={reference}"));
     }
     let hostile_dir = job.needs_child() || job.first != First::None;
-    if res != plain {
-        let sig = match first_token(&res) {
-            "PANIC" if hostile_dir => "run-panics-on-leftover-files",
-            "ABORT" => "run-aborts-on-leftover-files(huge allocation)",
-            "HANG" => "run-hangs-with-checkpointing",
-            _ if hostile_dir => "result-after-crash-differs-from-checkpoint-free-result",
-            _ => "checkpointed-result-differs-from-checkpoint-free-result",
-        };
-        cx.oracle_fail(idx, sig, format!("checkpointed={res} checkpoint-free={plain} kind={}", job.tag));
+    let unusable = job.dirkind == DirKind::File && job.en == En::On;
+    if unusable {
+        // outside the property's precondition (the checkpoint directory cannot be created): the run either fails
+        // with exactly the set-up error (before any node ran) or returns the plain result — nothing else
+        if res != plain && res != "ERR ckpt-create-dir" {
+            cx.oracle_fail(idx, "run-with-unusable-checkpoint-directory-neither-fails-with-the-setup-error-nor-returns-the-plain-result", format!("checkpointed={res} checkpoint-free={plain}"));
+        }
+        if res == "ERR ckpt-create-dir" {
+            cx.count("unusable-directory:setup-error-where-plain-run-returns");
+        }
+    } else if res != plain {
+        cx.oracle_fail(idx, differs_sig(&res, hostile_dir), format!("checkpointed={res} checkpoint-free={plain} kind={}", job.tag));
     }
     // the earlier run, when it ran to its end, is itself a checkpointed run of the same pipeline
-    if job.first == First::Full {
-        if let Some(out) = &prep.first_out {
-            let a = pipe::outcome_answer(out, canon);
-            if a != plain {
-                cx.oracle_fail(idx, "checkpointed-result-differs-from-checkpoint-free-result", format!("first run: checkpointed={a} checkpoint-free={plain}"));
+    if let Some(a) = &prep.first_res {
+        match job.first {
+            First::Full => {
+                if unusable {
+                    if *a != plain && a != "ERR ckpt-create-dir" {
+                        cx.oracle_fail(idx, "run-with-unusable-checkpoint-directory-neither-fails-with-the-setup-error-nor-returns-the-plain-result", format!("first run: checkpointed={a} checkpoint-free={plain}"));
+                    }
+                } else if *a != plain {
+                    cx.oracle_fail(idx, differs_sig(a, !job.pre.is_empty()), format!("first run: checkpointed={a} checkpoint-free={plain}"));
+                }
             }
-        }
-    }
-    if let (First::Crash(_), Some(out)) = (&job.first, &prep.first_out) {
-        if !matches!(out, Outcome::Panic(_)) {
-            cx.notes.push(format!("case {idx}: the armed closure did not fire (first outcome {})", pipe::outcome_answer(out, canon)));
-            cx.count("crash-did-not-fire");
+            First::Crash(_) | First::CrashBarrier { .. } => match first_token(a) {
+                "PANIC" => {}
+                "PANIC-NOT-INJECTED" | "ABORT" | "HANG" => {
+                    cx.oracle_fail(idx, differs_sig(a, true), format!("first (armed) run over pre-existing entries: {a}"));
+                }
+                _ => {
+                    cx.notes.push(format!("case {idx}: the armed closure did not fire (first outcome {a})"));
+                    cx.count("crash-did-not-fire");
+                }
+            },
+            First::None => {}
         }
     }
 
-    // ── oracle 2: after success nothing of this pipeline's runs is left, nothing new exists
     let after = listing(dir);
+    if job.dirkind == DirKind::File {
+        // the path is still the regular file it was
+        if std::fs::read(dir).ok().as_deref() != Some(FILE_AS_DIR_CONTENT) {
+            cx.oracle_fail(idx, "regular-file-at-the-checkpoint-directory-path-touched", format!("is_file={} is_dir={}", dir.is_file(), dir.is_dir()));
+        }
+        return;
+    }
+    // ── oracle 2: after success nothing of this pipeline's runs is left, nothing new exists
     if res.starts_with("OK ") && job.en == En::On {
+        // (a) "its files" in the narrow sense: whatever this run or the earlier run of the same pipeline created
         let left: Vec<&String> = after.keys().filter(|n| !prep.before.contains_key(*n) || prep.first_created.contains(*n)).collect();
         if !left.is_empty() {
             cx.oracle_fail(idx, "checkpoint-files-left-after-successful-run", format!("left behind: {left:?}"));
         }
-        // … nor any other well-formed checkpoint file of this pipeline id (e.g. of an earlier, failed run)
-        let own_left: Vec<&String> = after.keys().filter(|n| own_stamp(&prep.pid, n).is_some() && !left.contains(n)).collect();
+        // (b) per pipeline ID: no regular FILE with a well-formed checkpoint name of THIS run's id is left. Files
+        //     planted under this id count as "its files": the id is a hash of the chain length (+ partitions) only,
+        //     so an equal-length pipeline's leftovers ARE this id's files by design (Lean: same_length_same_id,
+        //     ckpt_clean_after_success). Own-named SUB-DIRECTORIES are not files; `remove_file` cannot remove them,
+        //     oracle 3 demands that they are still there.
+        let own_left: Vec<&String> = after.iter().filter(|(n, e)| e.is_file() && own_stamp(&prep.pid, n).is_some() && !left.contains(n)).map(|(n, _)| n).collect();
         if !own_left.is_empty() {
             cx.oracle_fail(idx, "checkpoint-files-of-this-pipeline-id-left-after-successful-run", format!("still there: {own_left:?}"));
         }
@@ -1037,16 +1435,26 @@ fn evaluate(cx: &mut Ctx, job: &Job, prep: &Prepared, dir: &Path, final_ans: &st
     if job.en != En::On && after != prep.before {
         cx.oracle_fail(idx, "run-without-enabled-checkpointing-touches-the-directory", format!("before {:?} after {:?}", prep.before.keys().collect::<Vec<_>>(), after.keys().collect::<Vec<_>>()));
     }
-    // ── oracle 3: whatever is not a checkpoint of this pipeline id is untouched, however the run ended
+    // ── oracle 3: whatever is not a checkpoint FILE of this pipeline id is untouched, however the run ended
     for (n, c) in &prep.before {
-        if own_stamp(&prep.pid, n).is_none() && after.get(n) != Some(c) {
-            cx.oracle_fail(idx, "foreign-file-touched", format!("{n}: before {} bytes, after {:?}", c.len(), after.get(n).map(Vec::len)));
+        if (own_stamp(&prep.pid, n).is_none() || !c.is_file()) && after.get(n) != Some(c) {
+            let sig = if c.is_file() { "foreign-file-touched" } else { "sub-directory-touched" };
+            cx.oracle_fail(idx, sig, format!("{n}: before {c:?}, after {:?}", after.get(n)));
         }
     }
 }
 
-/// run the final phase of the listed jobs in watchdog children; returns answers by job index
-fn run_children(seed: u64, tier: Tier, root: &Path, todo: &BTreeSet<usize>) -> BTreeMap<usize, String> {
+/// does the child process handle this job in this phase?
+fn in_phase(job: &Job, phase: &str) -> bool {
+    match phase {
+        "first" => job.first_in_child(),
+        _ => job.needs_child(),
+    }
+}
+
+/// run one phase (`first` = the earlier run, `final` = the run proper) of the listed jobs in watchdog children;
+/// returns answers by job index
+fn run_children(phase: &str, seed: u64, tier: Tier, root: &Path, todo: &BTreeSet<usize>) -> BTreeMap<usize, String> {
     let mut answers: BTreeMap<usize, String> = BTreeMap::new();
     let Some(&last) = todo.iter().next_back() else { return answers };
     let exe = std::env::current_exe().expect("current_exe");
@@ -1061,8 +1469,9 @@ fn run_children(seed: u64, tier: Tier, root: &Path, todo: &BTreeSet<usize>) -> B
         spawns += 1;
         let mut child = Command::new("sh")
             .arg("-c")
-            .arg(format!("ulimit -v {CHILD_AS_LIMIT_KIB} && exec \"$0\" child c11 final \"$1\" \"$2\" \"$3\" \"$4\""))
+            .arg(format!("ulimit -v {CHILD_AS_LIMIT_KIB} && exec \"$0\" child c11 \"$1\" \"$2\" \"$3\" \"$4\" \"$5\""))
             .arg(&exe)
+            .arg(phase)
             .arg(seed.to_string())
             .arg(tier_s)
             .arg(root)
@@ -1138,11 +1547,13 @@ fn run_children(seed: u64, tier: Tier, root: &Path, todo: &BTreeSet<usize>) -> B
     answers
 }
 
-/// child: `ibh child c11 final <seed> <tier> <root> <start>`
+/// child: `ibh child c11 <first|final> <seed> <tier> <root> <start>`
 pub fn child(args: &[String]) -> i32 {
-    if args.first().map(String::as_str) != Some("final") {
-        return 2;
-    }
+    let phase = match args.first().map(String::as_str) {
+        Some("first") => "first",
+        Some("final") => "final",
+        _ => return 2,
+    };
     let (Some(seed), Some(tier), Some(root), Some(start)) = (args.get(1), args.get(2), args.get(3), args.get(4)) else { return 2 };
     let Ok(seed) = seed.parse::<u64>() else { return 2 };
     let Ok(start) = start.parse::<usize>() else { return 2 };
@@ -1156,7 +1567,7 @@ pub fn child(args: &[String]) -> i32 {
     let jobs = plan_jobs(&mut cx.rng, tier, &mut blocks);
     let out = std::io::stdout();
     for (k, job) in jobs.iter().enumerate().skip(start) {
-        if !job.needs_child() {
+        if !in_phase(job, phase) {
             continue;
         }
         let dir = PathBuf::from(root).join(k.to_string());
@@ -1169,7 +1580,7 @@ pub fn child(args: &[String]) -> i32 {
             let _ = writeln!(o, "{k} START");
             let _ = o.flush();
         }
-        let a = run_final(job, &pid, &dir);
+        let a = if phase == "first" { run_first(job, &pid, &dir) } else { run_final(job, &pid, &dir) };
         let mut o = out.lock();
         let _ = writeln!(o, "{k} {a}");
         let _ = o.flush();
@@ -1186,26 +1597,48 @@ pub fn run(cx: &mut Ctx) {
     cx.exhaustive_blocks.extend(blocks);
     let root = tmproot();
 
-    // phase A: prepare every job (pre files, earlier run, damage); run the benign final runs in-process
+    // phase A: scratch path and `pre` entries of every job; the earlier runs that start from an EMPTY directory
+    // in-process
+    let mut preps_a: Vec<Option<PrepA>> = Vec::with_capacity(jobs.len());
+    let mut firsts: BTreeMap<usize, String> = BTreeMap::new();
+    let mut todo_first: BTreeSet<usize> = BTreeSet::new();
+    for (k, job) in jobs.iter().enumerate() {
+        let dir = root.path().join(k.to_string());
+        let a = prepare_a(job, &dir);
+        if let Some(a) = &a {
+            if job.first_in_child() {
+                todo_first.insert(k);
+            } else if job.first != First::None {
+                firsts.insert(k, run_first(job, &a.pid, &dir));
+            }
+        } else {
+            cx.count("job-not-preparable");
+        }
+        preps_a.push(a);
+    }
+    // phase A': the earlier runs over pre-existing (possibly hostile) entries, in children
+    let child_firsts = run_children("first", cx.seed, cx.tier, root.path(), &todo_first);
+    for k in &todo_first {
+        firsts.insert(*k, child_firsts.get(k).cloned().unwrap_or_else(|| "ABORT".to_string()));
+    }
+    // phase B: damage + foreign files; the benign final runs in-process
     let mut preps: Vec<Option<Prepared>> = Vec::with_capacity(jobs.len());
     let mut inproc: BTreeMap<usize, String> = BTreeMap::new();
     let mut todo: BTreeSet<usize> = BTreeSet::new();
-    for (k, job) in jobs.iter().enumerate() {
+    for (k, (job, a)) in jobs.iter().zip(preps_a).enumerate() {
         let dir = root.path().join(k.to_string());
-        let prep = prepare(job, &dir);
+        let prep = a.map(|a| prepare_b(job, a, &dir, firsts.remove(&k)));
         if let Some(p) = &prep {
             if job.needs_child() {
                 todo.insert(k);
             } else {
                 inproc.insert(k, run_final(job, &p.pid, &dir));
             }
-        } else {
-            cx.count("job-not-preparable");
         }
         preps.push(prep);
     }
-    // phase B: the final runs that face damaged / hostile / foreign directory content, in children
-    let child_answers = run_children(cx.seed, cx.tier, root.path(), &todo);
+    // phase B': the final runs that face damaged / hostile / foreign directory content, in children
+    let child_answers = run_children("final", cx.seed, cx.tier, root.path(), &todo);
 
     // phase C: cases and oracles, in job order
     for (k, job) in jobs.iter().enumerate() {
@@ -1217,11 +1650,16 @@ pub fn run(cx: &mut Ctx) {
             inproc.get(&k).cloned().unwrap_or_else(|| "ABORT".to_string())
         };
         evaluate(cx, job, prep, &dir, &ans);
-        let _ = std::fs::remove_dir_all(&dir);
+        if dir.is_dir() {
+            let _ = std::fs::remove_dir_all(&dir);
+        } else {
+            let _ = std::fs::remove_file(&dir);
+        }
     }
     cx.notes.push(format!(
-        "{} jobs; {} final runs in watchdog children (address-space limit {} MiB)",
+        "{} jobs; {} earlier runs and {} final runs in watchdog children (address-space limit {} MiB)",
         jobs.len(),
+        todo_first.len(),
         todo.len(),
         CHILD_AS_LIMIT_KIB / 1024
     ));
